@@ -586,4 +586,90 @@ theorem mdr_ErrClean_of_notFound {d : Nat} (m : MMetaSlab (MTree r d)) (c : Ctx)
 
 end full
 
+section top
+variable {r : Nat} (eb : DEnvB r) (rs : DRestruct r) (cfg : MCfg) (k : MKey) (v : Elem) (P : DG r → Prop)
+
+/-- the heap after a root operation that turns the handle `m1` into `m2` (the depth may change); `xh2` = the extra data of
+    the root record AS STORED -/
+structure MRRootPost (h h' : SlabID → Option (DSlab r)) (m1 m2 : OMap r) (xh2 : Option DX) : Prop where
+  holds : MHolds h' m2.d m2.root xh2
+  step : MRStep h h' (md_ids m1.d m1.root) (md_ids m2.d m2.root)
+  nodup : (md_ids m2.d m2.root).Nodup
+  hdrs : mdr_HdrsOk m2.d m2.root
+
+/-- TAIL hypothesis on the root calls (for ANY `rs`), pointwise on what `OrderedMap.remove` produces.
+    * `rs.promote`: the root of the handle is an index slab with exactly ONE child `child` (header list = `[hdr child]`),
+      held by the heap (the STORED root record may carry any extra data `xh`: `decrementCount` has only changed the copy in
+      the handle), identifiers distinct: the call on `md_map m1 s1` with the child's identifier is the model's
+      `promoteIfSingleChild`: no error, `md_map m2 s2`, the model's `Ctx`, the heap holds the new tree with the handle's extra
+      data in the root record, `MRStep`, identifiers distinct.
+    * `rs.splitRoot`: the root (held, identifiers distinct, size a `uint32`) is full: the call is the model's
+      `OMap.splitRoot`; a model error comes back as that error. -/
+def MRRootTail (T : Nat) (rs : DRestruct r) : Prop :=
+  (∀ (d : Nat) (x : MMetaSlab (MTree r d)) (ty cnt seed : Nat) (child : MTree r d) (s1 : MHSt r) (xh : Option DX),
+    x.children = [child] → x.childHdrs = [MTree.hdr d child] →
+    MHolds s1.heap (d + 1) (x : MMetaSlab (MTree r d)) xh → (md_ids (d + 1) (x : MMetaSlab (MTree r d))).Nodup →
+    ∃ s2, rs.promote (md_map (⟨d + 1, x, ty, cnt, seed⟩ : OMap r) s1) (MTree.hdr d child).id =
+        (none, md_map ((⟨d + 1, x, ty, cnt, seed⟩ : OMap r).promoteIfSingleChild s1.ctx).1 s2) ∧
+      s2.ctx = ((⟨d + 1, x, ty, cnt, seed⟩ : OMap r).promoteIfSingleChild s1.ctx).2 ∧ s2.popped = s1.popped ∧
+      MRRootPost s1.heap s2.heap (⟨d + 1, x, ty, cnt, seed⟩ : OMap r)
+        ((⟨d + 1, x, ty, cnt, seed⟩ : OMap r).promoteIfSingleChild s1.ctx).1
+        (some (md_extra ((⟨d + 1, x, ty, cnt, seed⟩ : OMap r).promoteIfSingleChild s1.ctx).1))) ∧
+  (∀ (m2 : OMap r) (s2 : MHSt r) (xh : Option DX),
+    MHolds s2.heap m2.d m2.root xh → (md_ids m2.d m2.root).Nodup → mdr_HdrsOk m2.d m2.root →
+    (MTree.hdr m2.d m2.root).size < 2^32 → MTree.isFull T m2.d m2.root = true →
+    match m2.splitRoot s2.ctx with
+    | .ok (m3, c3) => ∃ s3, rs.splitRoot (md_map m2 s2) = (none, md_map m3 s3) ∧ s3.ctx = c3 ∧ s3.popped = s2.popped ∧
+        MRRootPost s2.heap s3.heap m2 m3 (some (md_extra m3))
+    | .error e => ∃ M, rs.splitRoot (md_map m2 s2) = (some e, M))
+
+/-- the promotion step of the generated `OrderedMap.remove` on a handle whose tree the heap holds = the model's
+    `promoteIfSingleChild` (the decision AND the call) -/
+theorem mdr_promoteStep_md (hR : MRRootTail cfg.T rs) (m1 : OMap r) (s1 : MHSt r) (xh : Option DX)
+    (hh : MHolds s1.heap m1.d m1.root xh) (hnd : (md_ids m1.d m1.root).Nodup) (hhd : mdr_HdrsOk m1.d m1.root) :
+    ∃ s2 xh2, mdr_promoteStep rs (md_map m1 s1) = (none, md_map (m1.promoteIfSingleChild s1.ctx).1 s2) ∧
+      s2.ctx = (m1.promoteIfSingleChild s1.ctx).2 ∧ s2.popped = s1.popped ∧
+      MRRootPost s1.heap s2.heap m1 (m1.promoteIfSingleChild s1.ctx).1 xh2 ∧
+      (xh2 = xh ∨ xh2 = some (md_extra (m1.promoteIfSingleChild s1.ctx).1)) := by
+  obtain ⟨d, root, ty, cnt, seed⟩ := m1
+  cases d with
+  | zero =>
+    exact ⟨s1, xh, rfl, rfl, rfl, ⟨hh, MRStep.refl _ _, hnd, hhd⟩, Or.inl rfl⟩
+  | succ d =>
+    have hhd' : (root : MMetaSlab (MTree r d)).childHdrs = (root : MMetaSlab (MTree r d)).children.map (MTree.hdr d) := hhd
+    have hroot : (md_map (⟨d + 1, root, ty, cnt, seed⟩ : OMap r) s1).root =
+        .metaSlab (md_meta (root : MMetaSlab (MTree r d)) (some (md_extra (⟨d + 1, root, ty, cnt, seed⟩ : OMap r)))) := rfl
+    have noprom : ((root : MMetaSlab (MTree r d)).children.length ≠ 1) →
+        mdr_promoteStep rs (md_map (⟨d + 1, root, ty, cnt, seed⟩ : OMap r) s1) =
+          (none, md_map (⟨d + 1, root, ty, cnt, seed⟩ : OMap r) s1) ∧
+        (⟨d + 1, root, ty, cnt, seed⟩ : OMap r).promoteIfSingleChild s1.ctx = (⟨d + 1, root, ty, cnt, seed⟩, s1.ctx) := by
+      intro hlen
+      constructor
+      · simp only [mdr_promoteStep, hroot, md_meta, hhd']
+        rcases hch : (root : MMetaSlab (MTree r d)).children with _ | ⟨c1, _ | ⟨c2, tl⟩⟩
+        · rfl
+        · rw [hch] at hlen; exact absurd rfl hlen
+        · rfl
+      · simp only [OMap.promoteIfSingleChild, hhd']
+        rcases hch : (root : MMetaSlab (MTree r d)).children with _ | ⟨c1, _ | ⟨c2, tl⟩⟩
+        · rfl
+        · rw [hch] at hlen; exact absurd rfl hlen
+        · rfl
+    by_cases hlen : (root : MMetaSlab (MTree r d)).children.length = 1
+    · obtain ⟨child, hch⟩ : ∃ child, (root : MMetaSlab (MTree r d)).children = [child] := by
+        rcases hc : (root : MMetaSlab (MTree r d)).children with _ | ⟨c1, _ | ⟨c2, tl⟩⟩
+        · rw [hc] at hlen; cases hlen
+        · exact ⟨c1, rfl⟩
+        · rw [hc] at hlen; simp at hlen
+      have hhdr1 : (root : MMetaSlab (MTree r d)).childHdrs = [MTree.hdr d child] := by rw [hhd', hch]; rfl
+      obtain ⟨s2, hcall, hctx, hpop, hpost⟩ := hR.1 d root ty cnt seed child s1 xh hch hhdr1 hh hnd
+      refine ⟨s2, _, ?_, hctx, hpop, hpost, Or.inr rfl⟩
+      rw [← hcall]
+      simp only [mdr_promoteStep, hroot, md_meta, hhdr1, List.map_cons, List.map_nil, md_hdr]
+    · obtain ⟨h1, h2⟩ := noprom hlen
+      rw [h2]
+      exact ⟨s1, xh, h1, rfl, rfl, ⟨hh, MRStep.refl _ _, hnd, hhd⟩, Or.inl rfl⟩
+
+end top
+
 end Atree.TransEq
